@@ -28,7 +28,7 @@ impl Default for ExploreCfg {
 pub fn quiet_panics() {
     std::panic::set_hook(Box::new(|info| {
         let s = info.to_string();
-        if s.contains("SYMX-INTERNAL") {
+        if std::env::var("SYMX_DEBUG").is_ok() {
             eprintln!("{}", s);
         }
     }));
